@@ -317,7 +317,47 @@ func ruleVerifyKeyMatch(c *eng.Ctx) {
 				bad = true
 			}
 		}
+		verifierExemptions(c, rule)
 		c.Check(!bad, rule, "VerifyBlockSignature:no-success-without-verify", fi.Decl.Pos(), "success implies verifySignature ran", "VerifyBlockSignature can report (verified, nil) without calling verifySignature")
+	}
+}
+
+// verifierExemptions: the only way a verifier may report "nothing to verify" is the absence of a
+// signature link on the block.
+func verifierExemptions(c *eng.Ctx, rule string) {
+	for _, name := range []string{"internal/core/block.VerifyBlockSignature", "internal/core/block.VerifyBlockSignatureWithKey"} {
+		fi := c.P.Func(name)
+		if fi == nil {
+			continue
+		}
+		info := fi.Pkg.TypesInfo
+		n := 0
+		ast.Inspect(fi.Decl.Body, func(m ast.Node) bool {
+			is, ok := m.(*ast.IfStmt)
+			if !ok {
+				return true
+			}
+			for _, st := range is.Body.List {
+				r, ok := st.(*ast.ReturnStmt)
+				if !ok || len(r.Results) != 2 {
+					continue
+				}
+				if tv, ok := info.Types[r.Results[1]]; !ok || !tv.IsNil() {
+					continue
+				}
+				n++
+				good := false
+				if be, ok := ast.Unparen(is.Cond).(*ast.BinaryExpr); ok && be.Op == token.EQL && isFieldNamed(info, be.X, "Signature") {
+					if yv, ok := info.Types[be.Y]; ok && yv.IsNil() {
+						good = true
+					}
+				}
+				c.Check(good, rule, fmt.Sprintf("%s:unverified-success#%d(%s)", shortFn(fi), n, eng.ExprStr(is.Cond)), r.Pos(),
+					"'not verified, no error' only for a block without signature link",
+					"the verifier returns (.., nil) without verifying under condition "+eng.ExprStr(is.Cond)+", which depends on content of the block being verified other than the presence of the signature link: an attacker can steer a signed block into the unverified path")
+			}
+			return true
+		})
 	}
 }
 
